@@ -14,6 +14,7 @@
                       (data lines + budgeted heading lines) are within max 1 (nrow - reserved), or the
                       page holds a single row — for EVERY metadata list (K1);
      C03_rows_ge_1    the hypothesis of C03_accounting holds for the metadata the pipeline computes;
+     C03_pipeline_accounting   the two composed: metadata computed from any frame -> no overflow;
      C03_lines        the budgeted line count of a cell dominates the lines it needs at the font / size
                       it is measured with (after the repair: the cell's own): w/cw <= floor(w/cw)+1;
      C03_partial      budgeted rows + reserved rows <= nrow whenever at least one row is available —
@@ -53,3 +54,14 @@ Example C03_refuted_heading_rows :
   assign_pages 3 0 false [m 1 true; m 0 false] = [1; 1]
   /\ (2 (* rendered heading rows *) + 2 (* data rows *) > 3).
 Proof. split; [vm_compute; reflexivity|lia]. Qed.
+
+(* the two halves composed: for the row metadata the pipeline itself computes from ANY frame, widths,
+   fonts and sizes, the page assignment it then makes never overflows its own accounting *)
+Theorem C03_pipeline_accounting : forall widths fonts sizes ri cols removed cw pb sl rows pbc slc ms nrow add np,
+  metas widths fonts sizes ri cols removed cw pb sl rows pbc slc = Ok ms ->
+  check_fill (Z.max 1 (nrow - add)) ms (assign_pages nrow add np ms) = true.
+Proof.
+  intros widths fonts sizes ri cols removed cw pb sl rows pbc slc ms nrow add np H.
+  apply assign_fill. exact (metas_total_ge_1 _ _ _ _ _ _ _ _ _ _ _ _ _ H).
+Qed.
+Print Assumptions C03_pipeline_accounting.
